@@ -3,7 +3,8 @@ import collections
 
 from .. import obs as O
 from .. import sgr_model as M
-from .common import (Contract, ansi_values, history, run_cases, tier_sizes, safe_obs, norm_range, settings_texts)
+from .common import (Contract, ansi_values, history, run_cases, tier_sizes, safe_obs, norm_range, settings_texts,
+                     GROUP_CODES)
 from ..gen import gen_range, gen_settings
 
 PROP = 'C06'
@@ -166,6 +167,41 @@ def contracts(ctx, mon):
     return [ApplyContract(ctx)]
 
 
+def restart_workshop(ctx, mon, rng, L):
+    """several applies whose bounds come from a tiny set of indices (so starts/ends coincide with earlier starts,
+    ends and restart points), non-topmost and topmost mixed, settings from one or two effect groups; now and then a
+    remove_formatting in between (it creates restart points at its range end as well)"""
+    groups = rng.sample(sorted(GROUP_CODES), rng.choice([1, 1, 2]))
+    pool = []
+    for g in groups:
+        ap, cl = GROUP_CODES[g]
+        pool += ap + [cl]
+    n = rng.choice([8, 10, 12])
+    idx = sorted(rng.sample(range(0, n + 1), rng.choice([2, 3, 3, 4])))
+    with mon.quiet():
+        s = L.AnsiString('abcdefghijkl'[:n])
+        if rng.random() < 0.8:
+            s.apply_formatting(rng.choice(pool), 0, None)
+        if rng.random() < 0.2:
+            s = L.AnsiStr(s)
+    ctx.sig('restart-workshop')
+    for _ in range(rng.randint(3, 7)):
+        a, b = rng.choice(idx), rng.choice(idx + [None, n])
+        if b is not None and a > b:
+            a, b = b, a
+        try:
+            r = rng.random()
+            if r < 0.12 and isinstance(s, L.AnsiString):
+                with mon.quiet():
+                    s.remove_formatting(rng.choice(pool), a, b)
+            elif isinstance(s, L.AnsiString):
+                s.apply_formatting(rng.choice(pool), a, b, topmost=rng.random() < 0.45)
+            else:
+                s = s.apply_formatting(rng.choice(pool), a, b, topmost=rng.random() < 0.45)
+        except Exception:
+            pass
+
+
 def drive(ctx, mon, tier, only_case=None):
     L = ctx.L
     sz = tier_sizes(tier)
@@ -173,6 +209,8 @@ def drive(ctx, mon, tier, only_case=None):
     def body(rng, ex, case):
         profile = rng.choice(['wf', 'wf', 'mixed', 'hostile'])
         history(L, rng, ex, rng.randint(1, sz['nops']), sz['maxlen'], profile, WEIGHTS)
+        for _ in range(3):
+            restart_workshop(ctx, mon, rng, L)
         for v in ansi_values(L, ex)[-6:]:
             o = safe_obs(mon, v)
             if o is None:
